@@ -840,6 +840,151 @@ fn unpredict_params(driver: &Driver, seed: u64, n: u64) -> Stream {
     st
 }
 
+/// run `f` over the items on all cores (the real LZW decoder costs ≈ 1 ms per call: weezl's stream buffer)
+pub fn par_map<T: Sync, R: Send>(items: &[T], f: &(dyn Fn(&T) -> R + Sync)) -> Vec<R> {
+    let threads = std::thread::available_parallelism().map(|n| n.get()).unwrap_or(4).min(16).max(1);
+    let chunk = (items.len() + threads - 1) / threads.max(1);
+    if chunk == 0 { return vec![]; }
+    std::thread::scope(|sc| {
+        let hs: Vec<_> = items.chunks(chunk).map(|c| sc.spawn(move || c.iter().map(|x| f(x)).collect::<Vec<R>>())).collect();
+        hs.into_iter().flat_map(|h| h.join().expect("worker")).collect()
+    })
+}
+
+/// payloads for the LZW streams: long enough to cross the code-width switches (entries 511 / 1023 / 2047)
+/// and to fill the table (entry 4095), with little, medium and much repetition
+pub fn lzw_payload(rng: &mut Rng, long: bool) -> Vec<u8> {
+    if !long {
+        return payload(rng, 300);
+    }
+    let len = 2000 + rng.usize(14000);
+    match rng.below(5) {
+        0 => rng.bytes(len),                                                              // ≈ 1.1 bytes per code
+        1 => (0..len).map(|_| *rng.pick(b"abcdefgh")).collect(),                        // small alphabet
+        2 => { let k = 1 + rng.usize(3); (0..len).map(|i| ((i / k) % 251) as u8).collect() } // KwKwK-rich ramps
+        3 => { let b = rng.byte(); let mut v = vec![b; len]; for _ in 0..rng.usize(40) { let i = rng.usize(len); v[i] = rng.byte(); } v } // long runs: cScSc at every step
+        _ => { let w: Vec<u8> = (0..(2 + rng.usize(40))).map(|_| rng.byte()).collect(); (0..len).map(|i| if rng.chance(1, 50) { rng.byte() } else { w[i % w.len()] }).collect() }
+    }
+}
+
+pub fn lzw_opts(rng: &mut Rng) -> LzwOpts {
+    LzwOpts {
+        start_clear: !rng.chance(1, 8),
+        clear_every: if rng.chance(1, 4) { Some(1 + rng.usize(3000)) } else { None },
+        fill_table: rng.chance(1, 2),
+        deferred: if rng.chance(1, 3) { rng.usize(600) } else { 0 },
+        cut_percent: if rng.chance(1, 3) { 1 + rng.below(40) } else { 0 },
+    }
+}
+
+fn plain_lzw(early: bool) -> LZWFlateParams {
+    P::plain(if early { 1 } else { 0 }).real()
+}
+
+/// weezl (as `lzw_decode` drives it) against the Lean model of the LZW decoder, on conforming streams
+/// written by the harness's own encoder with every freedom the format leaves (non-greedy phrases, clear
+/// codes anywhere, full table with deferred clear, missing initial clear). Every stream is also
+/// certified by the driver to lie in the encoder relation of Spec/Lzw.lean.
+fn lzw_decode_stream(driver: &Driver, seed: u64, n_short: u64, n_long: u64) -> Stream {
+    let mut st = Stream::new("c05.lzw.decode", true);
+    let mut b = Batch::new();
+    let mut cases: Vec<(bool, Vec<u8>, Vec<u8>)> = vec![];
+    for case in 0..(n_short + n_long) {
+        let mut rng = Rng::derive(seed, "c05.lzw.decode", case);
+        let long = case >= n_short;
+        let early = rng.chance(2, 3);
+        if (long && case % 3 == 0) || (!long && case % 2 == 1) {
+            // a random valid code sequence (reader-side construction): recent entries, KwKwK, full table
+            let n = if long { 3900 + rng.usize(700) } else { 1 + rng.usize(60) };
+            let after_full = if rng.chance(2, 3) { 1 + rng.usize(200) } else { 0 };
+            let (x, text) = lzw_random_codes(&mut rng, early, n, after_full, 24);
+            st.count(&format!("{} early={} random-codes", if long { "long" } else { "short" }, early as u8));
+            cases.push((early, x, text));
+            continue;
+        }
+        let x = lzw_payload(&mut rng, long);
+        let o = lzw_opts(&mut rng);
+        let text = lzw_encode_opts(&x, early, &o, &mut rng);
+        st.count(&format!("{} early={} cut={} fill={} deferred={} extra-clear={}", if long { "long" } else { "short" }, early as u8, (o.cut_percent > 0) as u8, o.fill_table as u8, (o.deferred > 0) as u8, o.clear_every.is_some() as u8));
+        cases.push((early, x, text));
+    }
+    let imps = par_map(&cases, &|c: &(bool, Vec<u8>, Vec<u8>)| { let p = plain_lzw(c.0); real(|| enc::lzw_decode(&c.2, &p)) });
+    for ((early, x, text), imp) in cases.iter().zip(imps.into_iter()) {
+        if imp != format!("ok {}", hex(x)) { st.count("REAL-DECODER-DID-NOT-RETURN-THE-PAYLOAD"); }
+        b.push(format!("c05.lzw {} {}", *early as u8, hex(text)), imp, !x.is_empty());
+        b.push(format!("c05.lzwconf {} {} {}", *early as u8, hex(x), hex(text)), "1".into(), false);
+    }
+    b.finish(driver, &mut st);
+    st
+}
+
+/// the same on damaged streams and random bytes (error class and bytes; outside the property's domain)
+fn lzw_broken_stream(driver: &Driver, seed: u64, n: u64) -> Stream {
+    let mut st = Stream::new("c05.lzw.decode.broken", false);
+    let mut b = Batch::new();
+    let mut cases: Vec<(bool, Vec<u8>)> = vec![];
+    for case in 0..n {
+        let mut rng = Rng::derive(seed, "c05.lzw.decode.broken", case);
+        let early = rng.chance(1, 2);
+        let long = case % 40 == 0;
+        let x = lzw_payload(&mut rng, long);
+        let o = lzw_opts(&mut rng);
+        let text = lzw_encode_opts(&x, early, &o, &mut rng);
+        let mut bad = match rng.below(6) {
+            0 => { let k = rng.usize(text.len() + 1); text[..k].to_vec() }                       // truncated: no EOD
+            1 => { let mut t = text.clone(); if !t.is_empty() { let i = rng.usize(t.len()); t[i] ^= 1 << rng.below(8); } t }
+            2 => { let n = rng.usize(40); rng.bytes(n) }
+            3 => { let mut t = text.clone(); let i = rng.usize(t.len() + 1); t.insert(i, rng.byte()); t }   // all later codes shifted
+            4 => { let mut t = text.clone(); t.extend(rng.bytes(5)); t }                          // bytes after EOD
+            _ => damage(&mut rng, &text),
+        };
+        if rng.chance(1, 10) { bad = damage(&mut rng, &bad); }
+        cases.push((early, bad));
+    }
+    let imps = par_map(&cases, &|c: &(bool, Vec<u8>)| { let p = plain_lzw(c.0); real(|| enc::lzw_decode(&c.1, &p)) });
+    for ((early, bad), imp) in cases.iter().zip(imps.into_iter()) {
+        b.push(format!("c05.lzw {} {}", *early as u8, hex(bad)), imp, true);
+    }
+    b.finish(driver, &mut st);
+    st
+}
+
+fn pack_codes(codes: &[(u32, u32)]) -> Vec<u8> {
+    let mut acc: u64 = 0; let mut nb = 0; let mut out = vec![];
+    for &(c, w) in codes { acc = (acc << w) | c as u64; nb += w; while nb >= 8 { out.push((acc >> (nb - 8)) as u8); nb -= 8; acc &= (1 << nb) - 1; } }
+    if nb > 0 { out.push((acc << (8 - nb)) as u8); }
+    out
+}
+
+/// every first 9-bit code; every second code after clear-table / a literal / EOD / an invalid code; every
+/// third code after (clear, literal); the thorough tier adds every stream of one or two bytes and every pair
+/// of codes
+fn lzw_short_stream(driver: &Driver, thorough: bool) -> Stream {
+    let mut st = Stream::new("c05.lzw.decode.short", false);
+    st.exhaustive = true;
+    let mut b = Batch::new();
+    let mut inputs: Vec<Vec<u8>> = vec![vec![]];
+    for a in 0..=255u8 { inputs.push(vec![a]); }
+    for c in 0..512u32 {
+        inputs.push(pack_codes(&[(c, 9)]));
+        inputs.push(pack_codes(&[(c, 9), (257, 9)]));
+        for first in [256u32, 65, 257, 300] { inputs.push(pack_codes(&[(first, 9), (c, 9), (257, 9)])); }
+        inputs.push(pack_codes(&[(256, 9), (65, 9), (c, 9), (257, 9)]));
+        inputs.push(pack_codes(&[(65, 9), (258, 9), (c, 9), (257, 9)]));
+    }
+    if thorough {
+        for a in 0..=255u8 { for c in 0..=255u8 { inputs.push(vec![a, c]); } }
+        for c1 in 0..512u32 { for c2 in 0..512u32 { inputs.push(pack_codes(&[(c1, 9), (c2, 9), (257, 9)])); } }
+    }
+    let cases: Vec<(bool, Vec<u8>)> = inputs.into_iter().flat_map(|i| [(false, i.clone()), (true, i)]).collect();
+    let imps = par_map(&cases, &|c: &(bool, Vec<u8>)| { let p = plain_lzw(c.0); real(|| enc::lzw_decode(&c.1, &p)) });
+    for ((early, inp), imp) in cases.iter().zip(imps.into_iter()) {
+        b.push(format!("c05.lzw {} {}", *early as u8, hex(inp)), imp, inp.len() >= 2);
+    }
+    b.finish(driver, &mut st);
+    st
+}
+
 fn chain_conforming(driver: &Driver, seed: u64, n: u64) -> Stream {
     let mut st = Stream::new("c05.chain.conforming", true);
     let mut b = Batch::new();
@@ -1342,6 +1487,9 @@ pub fn run(driver: &Driver, seed: u64, thorough: bool, replay: Option<&Value>) -
     rep.streams.push(unfilter_random(driver, seed, 500 * k, true));
     rep.streams.push(unpredict_conforming(driver, seed, 2000 * k));
     rep.streams.push(unpredict_params(driver, seed, 1500 * k));
+    rep.streams.push(lzw_decode_stream(driver, seed, 600 * k, 30 * k));
+    rep.streams.push(lzw_broken_stream(driver, seed, 1000 * k));
+    rep.streams.push(lzw_short_stream(driver, thorough));
     rep.streams.push(chain_conforming(driver, seed, 1500 * k));
     rep.streams.push(chain_broken(driver, seed, 1000 * k));
     let (a, b) = pair_stream(driver, seed, 1500 * k);
